@@ -1,6 +1,131 @@
-"""Lazy / plain statics of ark_curve::constants: evaluated by constant folding of their initialiser
-(filled in by the term engine)."""
+"""Lazy / plain statics of ark_curve::constants: their initialiser terms (from the engine) are constant-folded
+in Python and compared with their defining relations.  Constant folding of closed terms is not execution of
+decaf377 code: every operation folded is a ring operation on literals."""
+from . import terms as Tm, consts as K, engine as E, summaries as S
+from .terms import mk
+
+
+class NotConst(Exception):
+    pass
+
+
+def fold(t):
+    """closed term -> python int (integers / bigints) or ('F', field, int) for field elements"""
+    op = t.op
+    if op == "lit":
+        return t.args[0]
+    if op == "bool":
+        return t.args[0]
+    if op == "felem":
+        return ("F", t.args[0], t.args[1])
+    if op == "struct" and t.args[0].endswith("BigInt"):
+        return fold(t.args[2])
+    if op == "array":
+        vals = [fold(x) for x in t.args]
+        if all(isinstance(v, int) for v in vals):
+            return K.limbs_to_int(vals, 64)
+        raise NotConst("array of non-integers")
+    if op in ("canon_int", "canon_limbs"):
+        v = fold(t.args[0])
+        if isinstance(v, tuple):
+            return v[2]
+        raise NotConst("canon_int of non-element")
+    if op == "bigint_of":
+        return fold(t.args[0])
+    if op == "bigint_le_bytes":
+        return ("BYTES", fold(t.args[0]))
+    if op in ("from_le_bytes_mod_order",):
+        v = fold(t.args[1])
+        if isinstance(v, tuple) and v[0] == "BYTES":
+            return ("F", t.args[0], v[1] % K.MODULI[t.args[0]])
+        raise NotConst("bytes")
+    if op == "pow":
+        b, e = fold(t.args[0]), fold(t.args[1])
+        if isinstance(b, tuple) and b[0] == "F" and isinstance(e, int):
+            return ("F", b[1], pow(b[2], e, K.MODULI[b[1]]))
+        raise NotConst("pow")
+    if op in ("add", "sub", "mul"):
+        a, b = fold(t.args[0]), fold(t.args[1])
+        if isinstance(a, tuple) and isinstance(b, tuple) and a[1] == b[1]:
+            p = K.MODULI[a[1]]
+            return ("F", a[1], {"add": a[2] + b[2], "sub": a[2] - b[2], "mul": a[2] * b[2]}[op] % p)
+        raise NotConst(op)
+    if op == "neg":
+        a = fold(t.args[0])
+        return ("F", a[1], (-a[2]) % K.MODULI[a[1]])
+    if op == "inv":
+        a = fold(t.args[0])
+        return ("F", a[1], pow(a[2], -1, K.MODULI[a[1]]))
+    if op in ("iadd", "isub", "imul", "shl", "shr"):
+        a, b = fold(t.args[0]), fold(t.args[1])
+        return {"iadd": a + b, "isub": a - b, "imul": a * b, "shl": a << b, "shr": a >> b}[op]
+    if op == "convert":
+        return fold(t.args[2])
+    raise NotConst("cannot fold %s" % Tm.show(t, maxdepth=3))
+
+
+def eval_static(prog, path):
+    """returns (value, effects, unmodelled) of a static's initialiser"""
+    b = prog.body(path)
+    if b is None:
+        return None, [], ["no body"]
+    I = E.Interp(prog, S.Summaries())
+    out = E.Outcome()
+    fr = E.Frame(path, 0, out)
+    r = I.expr(b["body"], {"$pc": ()}, fr)
+    v = r[0] if r is not None else mk("bottom")
+    if v.op == "lazy":
+        rr = I.apply_fn(v.args[0], [], b["body"], {"$pc": ()}, fr)
+        v = rr[0] if rr is not None else mk("bottom")
+    return v, out.effects, out.unmodelled
 
 
 def check_statics(rep, facts, cfgname):
-    return
+    if cfgname not in ("A", "R"):
+        return
+    prog = E.Program(facts)
+    q = K.Q
+    s, t = K.two_adicity(q - 1)
+    zc = prog.consts.get("ark_curve::constants::ZETA")
+    if zc is None:
+        rep.fail_closed("ark_curve::constants::ZETA not found")
+        return
+    zeta = K.felt(zc["value"]["val"], "fq")[1]
+    M = (q - 1) >> s
+    want = {
+        "ONE": ("F", "fq", 1), "TWO": ("F", "fq", 2), "N": s, "SQRT_W": 8,
+        "M": M, "M_MINUS_ONE_DIV_TWO": (M - 1) // 2,
+        "ZETA_TO_ONE_MINUS_M_DIV_TWO": ("F", "fq", pow(pow(zeta, (M - 1) // 2, q), -1, q)),
+        "G": ("F", "fq", pow(zeta, M, q)),
+    }
+    why = {"ONE": "1", "TWO": "2", "N": "2-adicity of q-1", "SQRT_W": "window width 8 (tables have 2^8 rows)", "M": "(q-1)/2^N",
+           "M_MINUS_ONE_DIV_TWO": "(M-1)/2", "ZETA_TO_ONE_MINUS_M_DIV_TWO": "ZETA^((1-M)/2)", "G": "ZETA^M"}
+    n = 0
+    for name, w in want.items():
+        path = "ark_curve::constants::" + name
+        v, effects, unm = eval_static(prog, path)
+        b = prog.bodies.get(path)
+        if v is None or b is None:
+            rep.fail_closed("static %s not found" % path)
+            continue
+        try:
+            got = fold(v)
+        except NotConst as ex:
+            rep.ob("CONST/%s/%s" % (cfgname, path), False, "initialiser of %s could not be constant-folded: %s" % (name, ex), where=b["sp"])
+            continue
+        n += 1
+        rep.ob("CONST/%s/%s" % (cfgname, path), got == w, "%s folds to %s; its defining relation (%s) gives %s" % (
+            name, got if not isinstance(got, tuple) else hex(got[2]), why[name], w if not isinstance(w, tuple) else hex(w[2])), where=b["sp"],
+            sample={"constant": path, "relation": why[name], "holds": got == w})
+    # every MontFp! literal must be below the modulus of its field type
+    for name in list(want) + ["R"]:
+        path = "ark_curve::constants::" + name
+        if prog.body(path) is None:
+            continue
+        v, effects, unm = eval_static(prog, path)
+        for pc, kind, args, site in effects:
+            if kind == "montfp_literal_not_reduced":
+                rep.info("static %s: MontFp! literal %s is not below the modulus of its field (%s) and evaluates to %s; it is private and only read by a "
+                         "debug assertion (the order test in on_curve.rs is therefore vacuous) - INFO, no property rests on it" % (
+                             path, args[0].args[0], args[1].args[0], args[0].args[0] % K.MODULI[args[1].args[0]]))
+    rep.analysed.setdefault("statics_folded", {})[cfgname] = n
